@@ -204,6 +204,9 @@ func (eval Evaluator) Add(op0 *rlwe.Ciphertext, op1 rlwe.Operand, opOut *rlwe.Ci
 
 		opOut.Resize(op0.Degree(), level)
 
+		// The result is at the scale of op0, whatever opOut held before.
+		opOut.Scale = op0.Scale
+
 		TBig := eval.parameters.RingT().ModulusAtLevel[0]
 
 		// Works on a copy: the caller's scalar must be left unchanged.
@@ -490,6 +493,9 @@ func (eval Evaluator) Mul(op0 *rlwe.Ciphertext, op1 rlwe.Operand, opOut *rlwe.Ci
 		}
 
 		opOut.Resize(op0.Degree(), level)
+
+		// The result is at the scale of op0, whatever opOut held before.
+		opOut.Scale = op0.Scale
 
 		ringQ := eval.parameters.RingQ().AtLevel(level)
 
